@@ -1174,10 +1174,8 @@ Fixpoint convert (s : gtype) (o : xval) (t : gtype) (pl : place) (st : dstate) {
   | TPtr d =>
       if gtype_eqb s t && is_struct_ty d then wr_or_panic st pl o   (* ptrCopy: alias *)
       else if gtype_eqb s d && negb (is_ptr_kind s) then
-        match s with
-        | TMap _ _ => DPanic PMapCopy
-        | _ => let '(st1, c) := st_alloc st o in wr_or_panic st1 pl (XPtrTo c [])   (* pointer to the boxed copy *)
-        end
+        (* pointer to a variable holding the value (for a map: reflect.New + Set) *)
+        let '(st1, c) := st_alloc st o in wr_or_panic st1 pl (XPtrTo c [])
       else                                                          (* ptrConverter *)
         match st_rd st pl with
         | None => DPanic PMem
@@ -1199,8 +1197,7 @@ Fixpoint convert (s : gtype) (o : xval) (t : gtype) (pl : place) (st : dstate) {
             if gtype_eqb s (TPtr t) then
               match st_rd st (c, p) with Some cur => wr_or_panic st pl cur | None => DPanic PMem end
             else wr_or_panic st pl o
-        | XMapH _ => DPanic PMapCopy
-        | _ => wr_or_panic st pl o
+        | _ => wr_or_panic st pl o           (* also a map value held directly by the reference list *)
         end
       else if gtype_eqb s TString && is_num_or_bool t then
         match sleaf_of t with
@@ -1321,6 +1318,27 @@ Definition iface_pack (ft : gtype) (v : xval) : xval :=
 Definition rd_or (st : dstate) (pl : place) (k : xval -> dres) : dres :=
   match st_rd st pl with Some v => k v | None => DPanic PMem end.
 
+(* hashableType of map_decoder.go: slices and maps, also nested in arrays and structs, are not hashable *)
+Fixpoint hashable_gtype (te : tenv) (fuel : nat) (t : gtype) {struct fuel} : bool :=
+  match fuel with
+  | O => true
+  | S f =>
+      match t with
+      | TSlice _ | TMap _ _ | TBytes => false
+      | TArray _ e => hashable_gtype te f e
+      | TStruct n => match find_struct te n with
+                     | Some d => forallb (fun at_ => hashable_gtype te f (snd at_)) d
+                     | None => true
+                     end
+      | TBigInt | TBigFloat | TBigRat => false
+      | _ => true
+      end
+  end.
+
+(* hashableKey(key): by the dynamic type of the interface{} value *)
+Definition hashable_dyn (te : tenv) (v : xval) : bool :=
+  match v with XIface t _ => hashable_gtype te fuel_zero t | _ => true end.
+
 (* needsFreshStorage(kind): pointer, slice, map, struct, array, interface kinds *)
 Definition needs_fresh (t : gtype) : bool :=
   match t with TBool | TInt _ | TF32 | TF64 | TC64 | TC128 | TString => false | _ => true end.
@@ -1338,7 +1356,9 @@ Fixpoint map_pairs (k v : gtype) (mc kp vp : nat) (first : bool) (kvs : list wir
       bindd (rec RElem k kw (kp, []) stb) (fun st1 =>
       bindd (rec RElem v vw (vp, []) st1) (fun st2 =>
       rd_or st2 (kp, []) (fun kx => rd_or st2 (vp, []) (fun vx =>
-      bindd (map_set st2 mc kx vx) (map_pairs k v mc kp vp false r)))))
+      (* interface{} keys: hashableKey of the key, else dec.Error (the entry is skipped) *)
+      if match k with TIface => negb (hashable_dyn te kx) | _ => false end then DErr EOther
+      else bindd (map_set st2 mc kx vx) (map_pairs k v mc kp vp false r)))))
   | _ => DPanic PShape
   end.
 
@@ -1361,31 +1381,39 @@ Fixpoint list_as_map (k v : gtype) (mc kp vp : nat) (ws : list wire) (i : nat) (
 Definition new_map (pl : place) (st : dstate) : dres * nat :=
   let '(st1, c) := st_alloc st (XMap []) in (wr_or_panic st1 pl (XMapH c), c).
 
-(* decodeObjectAsMap, registered class: every class field must be a field of the type *)
-Fixpoint obj_fields_as_map (d : sdef) (mc : nat) (names : list bytes) (ws : list wire) (st : dstate) : dres :=
+(* decodeObjectAsMap: a class field of the resolved type is decoded with its field type and boxed;
+   any other field is decoded as interface{}; the key has the map's key type *)
+Definition obj_key (k : gtype) (n : bytes) : xval :=
+  match k with TIface => XIface TString (XStr n) | _ => XStr n end.
+
+Fixpoint obj_fields_as_map (k : gtype) (d : sdef) (mc : nat) (names : list bytes) (ws : list wire) (st : dstate) : dres :=
   match names, ws with
   | [], [] => DOk st
   | n :: nr, w :: wr_ =>
       match find_field d n 0 with
-      | None => DPanic PObjAsMapField
+      | None =>
+          let '(st1, vp) := st_alloc st XNil in
+          bindd (rec RElem TIface w (vp, []) st1) (fun st2 =>
+          rd_or st2 (vp, []) (fun vx =>
+          bindd (map_set st2 mc (obj_key k n) vx) (obj_fields_as_map k d mc nr wr_)))
       | Some (_, ft) =>
           let '(st1, vp) := st_alloc st (zero_of ft) in
           bindd (rec RElem ft w (vp, []) st1) (fun st2 =>
           rd_or st2 (vp, []) (fun vx =>
-          bindd (map_set st2 mc (XStr n) (iface_pack ft vx)) (obj_fields_as_map d mc nr wr_)))
+          bindd (map_set st2 mc (obj_key k n) (iface_pack ft vx)) (obj_fields_as_map k d mc nr wr_)))
       end
   | _, _ => DPanic PShape
   end.
 
 (* readObjectAsMap / decodeObjectAsMap without a type *)
-Fixpoint obj_ifaces_as_map (mc : nat) (names : list bytes) (ws : list wire) (st : dstate) : dres :=
+Fixpoint obj_ifaces_as_map (k : gtype) (mc : nat) (names : list bytes) (ws : list wire) (st : dstate) : dres :=
   match names, ws with
   | [], [] => DOk st
   | n :: nr, w :: wr_ =>
       let '(st1, vp) := st_alloc st XNil in
       bindd (rec RElem TIface w (vp, []) st1) (fun st2 =>
       rd_or st2 (vp, []) (fun vx =>
-      bindd (map_set st2 mc (XStr n) vx) (obj_ifaces_as_map mc nr wr_)))
+      bindd (map_set st2 mc (obj_key k n) vx) (obj_ifaces_as_map k mc nr wr_)))
   | _, _ => DPanic PShape
   end.
 
@@ -1496,7 +1524,7 @@ Definition iface_call (f : callee) (w : wire) (pl : place) (st : dstate) : dres 
         | None =>
             let '(st1, mc) := st_alloc st (XMap []) in
             let st2 := add_ref st1 (TMap TString TIface) (XMapH mc) in
-            bindd (obj_ifaces_as_map rec mc (c_names ci) ws st2) (fun st3 =>
+            bindd (obj_ifaces_as_map rec TString mc (c_names ci) ws st2) (fun st3 =>
             wr_or_panic st3 pl (XIface (TMap TString TIface) (XMapH mc)))
         | Some tn =>
             match find_struct te tn with
@@ -1697,17 +1725,13 @@ Definition dec_map (k v : gtype) (w : wire) (pl : place) (st : dstate) : dres :=
           match new_map pl st with
           | (DOk st1, mc) =>
               let st2 := add_ref st1 (TPtr t) self in
-              match k, c_names ci with
-              | TIface, _ :: _ => DPanic PObjIntoIIMap
-              | _, _ =>
-                  match c_type ci with
-                  | Some tn =>
-                      match find_struct te tn with
-                      | Some d => obj_fields_as_map te rec d mc (c_names ci) ws st2
-                      | None => DUnk 58
-                      end
-                  | None => obj_ifaces_as_map rec mc (c_names ci) ws st2
+              match c_type ci with
+              | Some tn =>
+                  match find_struct te tn with
+                  | Some d => obj_fields_as_map te rec k d mc (c_names ci) ws st2
+                  | None => DUnk 58
                   end
+              | None => obj_ifaces_as_map rec k mc (c_names ci) ws st2
               end
           | (other, _) => other
           end)
